@@ -719,7 +719,12 @@ func init() {
 		}
 		c.Check(regexp.MustCompile(`^\(\w+(?:\.RoundState)?\.Height - 1\)$`).MatchString(h), fk+" :: the marker written is that of the height before the one about to run", w.ipos(ensure.site), "cs.Height - 1", "writes the marker of "+h)
 		// it is written only when a search for that very height did not find it
-		ok, why := c.ge().guarded(g, ensure.call, guardRe("the marker was searched for and not found", `^false\(\w+\.wal\.SearchForEndHeight\(`+regexp.QuoteMeta(h)+`, .*\)#1\)$`), 0)
+		// (inside the helper the height is the helper's own parameter)
+		hg := h
+		for _, fs := range w.fieldStoresInRaw(g, "consensus", "EndHeightMessage", "Height") {
+			hg = w.expr(fs.Store.Val)
+		}
+		ok, why := c.ge().guarded(g, ensure.call, guardRe("the marker was searched for and not found", `^false\(\w+\.wal\.SearchForEndHeight\(`+regexp.QuoteMeta(hg)+`, .*\)#1\)$`), 0)
 		if !ok && g != f {
 			ok, why = c.ge().guarded(f, ensure.site, guardRe("the marker was searched for and not found", `^false\(\w+\.wal\.SearchForEndHeight\(`+regexp.QuoteMeta(h)+`, .*\)#1\)$`), 0)
 		}
